@@ -917,4 +917,52 @@ def relation_disagrees(f):
     return (len(found) > 0), found[:2]
 
 
+def _strip_ev(o):
+    if isinstance(o, dict):
+        return {k: _strip_ev(v) for k, v in o.items() if k not in ('events', 'work')}
+    if isinstance(o, list):
+        return [_strip_ev(x) for x in o]
+    return o
+
+
+def history_dependent(f):
+    """C18: on the real crates, the last step of the history scenario returns other bytes than the same call made first in a fresh process"""
+    cfg = f.detail.get('replay_cfg', f.cfg)
+    steps = cfg.get('steps') or []
+    if not steps:
+        return None, 'no history scenario recorded'
+    bad = []
+    for seed in (1, 2):
+        o = run_replay(cfg, seed)
+        if 'crash' in o:
+            return None, o
+        for at in range(len(steps)):
+            fresh = run_replay({'scenario': 'history', 'steps': [steps[at]]}, seed)
+            if 'crash' in fresh:
+                return None, fresh
+            a, b = _strip_ev(fresh['steps'][0]['out']), _strip_ev(o['steps'][at]['out'])
+            if a != b:
+                bad.append({'seed': seed, 'step': at, 'fresh': json.dumps(a)[:400], 'after_history': json.dumps(b)[:400]})
+                break
+    return (len(bad) == 2), bad[:1]
+
+
+def threads_differ(f):
+    """C18: on the real crates, threads racing the first use return different bytes (or other bytes than the sequential call)"""
+    cfg = f.detail.get('replay_cfg', f.cfg)
+    for rep in range(4):
+        o = run_replay(cfg, 1)
+        if 'crash' in o:
+            return None, o
+        if o.get('differences'):
+            return True, o['differences'][:1]
+        fresh = run_replay({'scenario': 'history', 'steps': [cfg['step']]}, 1)
+        got = json.loads(o['reference']) if o.get('reference') else {}
+        ref = _strip_ev(fresh['steps'][0]['out'])
+        for k in ('prove', 'verify', 'gens'):
+            if ref.get(k) is not None and got.get(k) is not None and _strip_ev(got[k]) != _strip_ev(ref[k]):
+                return True, {'field': k, 'sequential': json.dumps(ref[k])[:300], 'racing thread': json.dumps(got[k])[:300]}
+    return False, None
+
+
 PREDS = {k: v for k, v in globals().items() if callable(v) and not k.startswith('_') and k != 'run_replay'}
